@@ -61,6 +61,20 @@ class LoopSpec:
         self.name = name
 
 
+class CompSpec:
+    """Contract of a comprehension `[body(x) for x in xs]` (the analogue of a loop invariant):
+         elem(item)  -> term the body must evaluate to for an arbitrary item of xs
+         err(item)   -> Int term, 0 iff the body does not raise for that item, else the error code it raises with
+         result(xs_value) -> the term standing for the whole list (a spec-level map of elem over xs)
+         first_err(xs_value) -> Int term: code of the first item that raises, 0 if none
+         exc(code_term) -> ExcVal raised by the comprehension when first_err != 0
+    Check side: body evaluated from the real AST for an arbitrary item, obligations elem / err.
+    Use side: the comprehension is replaced by result(xs) (raise-split on first_err)."""
+
+    def __init__(self, elem, result, err=None, first_err=None, exc=None, elt_ty=None):
+        self.elem, self.result, self.err, self.first_err, self.exc, self.elt_ty = elem, result, err, first_err, exc, elt_ty
+
+
 class FnSpec:
     file = None  # path relative to /repo
     qualname = None  # e.g. "LRUCache.put" or "dds_hash._dds_hash0"
@@ -70,6 +84,7 @@ class FnSpec:
 
     def __init__(self):
         self.loops = {}
+        self.comps = {}
         self.globals = {}
         self.classes = {}
         self._module = None
@@ -424,11 +439,63 @@ class FnSpec:
                 eng.exec_block(s.orelse, env)
 
     # ---- comprehension ----------------------------------------------------------------------
+    def comp_ordinal(self, eng, e):
+        comps = [n for n in ast.walk(eng.fdef) if isinstance(n, (ast.ListComp, ast.GeneratorExp, ast.SetComp, ast.DictComp))]
+        comps.sort(key=lambda n: (n.lineno, n.col_offset))
+        for i, n in enumerate(comps):
+            if n is e:
+                return i
+        return None
+
+    def contract_comprehension(self, eng, e, env, kind, cs, it, ordinal):
+        g = e.generators[0]
+        if g.ifs or kind not in ("list", "gen"):
+            raise OutOfSubset("comprehension contract on a filtered / non-list comprehension (line %s)" % e.lineno)
+        n, item = iter_protocol(eng, it)
+        if n is None:
+            raise OutOfSubset("cannot iterate over %r at line %s" % (it, e.lineno))
+        tag = "comp%d" % ordinal
+        if eng.choose(z3.Bool(sv.fresh_name("comp_check"))):
+            # check side: the real body on an arbitrary item of the sequence
+            gi = z3.Int(sv.fresh_name("g"))
+            eng.assume(z3.And(gi >= 0, gi < n))
+            x = item(gi)
+            sub = _child_env(env)
+            eng.assign(g.target, x, sub)
+            try:
+                v = eng.eval(e.elt, sub)
+            except _Raise as r:
+                exc = r.exc
+                if cs.err is None:
+                    eng.oblige("%s.body_does_not_raise" % tag, False, kind="comp-check", node=e, cut=False, meta={"exc": repr(exc)})
+                else:
+                    code = exc.code
+                    ct = code.term if isinstance(code, Sym) else (z3.IntVal(int(code)) if code is not None else z3.IntVal(-1))
+                    eng.oblige("%s.raises_only_as_specified" % tag, z3.And(cs.err(x) != 0, ct == cs.err(x)), kind="comp-check", node=e, cut=False, meta={"exc": repr(exc)})
+                raise _PathEnd()
+            want = cs.elem(x)
+            vt = want.ty.lift(v).term if isinstance(want, Sym) else v
+            wt = want.term if isinstance(want, Sym) else want
+            eng.oblige("%s.element_is_as_specified" % tag, vt == wt, kind="comp-check", node=e, cut=False)
+            if cs.err is not None:
+                eng.oblige("%s.no_error_when_body_returns" % tag, cs.err(x) == 0, kind="comp-check", node=e, cut=False)
+            raise _PathEnd()
+        # use side
+        if cs.first_err is not None:
+            fe = cs.first_err(it)
+            if eng.choose(fe != 0):
+                raise _Raise(cs.exc(fe))
+        return cs.result(it)
+
     def eval_comprehension(self, eng, e, env, kind):
         if len(e.generators) != 1:
             raise OutOfSubset("multi-generator comprehension at line %s" % e.lineno)
         g = e.generators[0]
         it = eng.eval(g.iter, env)
+        if self.comps:
+            o = self.comp_ordinal(eng, e)
+            if o is not None and o in self.comps:
+                return self.contract_comprehension(eng, e, env, kind, self.comps[o], it, o)
         if isinstance(it, Opaque):
             # iteration over a value the engine does not look into (only ever built for log lines): the body is
             # still evaluated once, on opaque items, so that any call it makes is seen by the models
@@ -586,7 +653,7 @@ class FnSpec:
         if not _symbolic(a) and not _symbolic(b):
             import operator
 
-            table = {ast.Add: operator.add, ast.Sub: operator.sub, ast.Mult: operator.mul, ast.FloorDiv: operator.floordiv, ast.Mod: operator.mod, ast.BitXor: operator.xor}
+            table = {ast.Add: operator.add, ast.Sub: operator.sub, ast.Mult: operator.mul, ast.FloorDiv: operator.floordiv, ast.Mod: operator.mod, ast.BitXor: operator.xor, ast.Pow: operator.pow}
             if type(op) in table and not isinstance(a, Opaque) and not isinstance(b, Opaque):
                 return table[type(op)](a, b)
         if isinstance(a, Opaque) or isinstance(b, Opaque):
@@ -637,6 +704,10 @@ class FnSpec:
             if isinstance(op, ast.NotIn):
                 return (not r) if isinstance(r, bool) else z3.Not(r)
             return r
+        if isinstance(a, Sym) and hasattr(a.ty, "as_int"):
+            a = a.ty.as_int(eng, a, node)
+        if isinstance(b, Sym) and hasattr(b.ty, "as_int"):
+            b = b.ty.as_int(eng, b, node)
         if _is_int(a) and _is_int(b):
             if not _symbolic(a) and not _symbolic(b):
                 import operator
@@ -1029,6 +1100,8 @@ def iter_protocol(eng, it):
         it = Sym(it.ty.val(it.term), it.ty.inner)
     if isinstance(it, Sym) and isinstance(it.ty, TSeq):
         return z3.Length(it.term), (lambda k, it=it: Sym(it.term[k], it.ty.elt))
+    if isinstance(it, Sym) and hasattr(it.ty, "iter_"):
+        return it.ty.iter_(eng, it)
     if isinstance(it, LazyIter):
         return it.length(eng), (lambda k, it=it: it.item(eng, k))
     if isinstance(it, MapVal) and it.keys is not None:
@@ -1109,6 +1182,16 @@ class ZipIter(LazyIter):
             x = item(z3.IntVal(i))
             out.append((c, x) if flip else (x, c))
         return out
+
+    def length(self, eng):
+        na, _ = iter_protocol(eng, self.a)
+        nb, _ = iter_protocol(eng, self.b)
+        return z3.If(na < nb, na, nb)
+
+    def item(self, eng, k):
+        _, ia = iter_protocol(eng, self.a)
+        _, ib = iter_protocol(eng, self.b)
+        return (ia(k), ib(k))
 
 
 def map_method(spec, eng, m, name, args, kwargs, node):
